@@ -6,7 +6,10 @@ import (
 	"strings"
 )
 
-type raceReport struct{ key, text string }
+type raceReport struct {
+	key, text string
+	skip      bool // an access of the environment (harness / shim), kept only so that report indices stay aligned
+}
 
 var (
 	reBrackets = regexp.MustCompile(`\[[^\[\]]*\]`)
@@ -112,11 +115,9 @@ func parseRaceReports(txt string) []raceReport {
 				break
 			}
 		}
-		if len(accs) < 2 {
-			continue
-		}
-		if accs[0].frame == "?" || accs[1].frame == "?" {
+		if len(accs) < 2 || accs[0].frame == "?" || accs[1].frame == "?" {
 			// one side is harness code reading internal state for an oracle: not an access of the code under test
+			out = append(out, raceReport{skip: true})
 			continue
 		}
 		parts := []string{accs[0].kind + ":" + accs[0].frame, accs[1].kind + ":" + accs[1].frame}
